@@ -375,6 +375,8 @@ type vfStreamSpec struct {
 	// HugeHeaders: the request carries 24 more fields of 1000 bytes and a last one (a header list of more than 16 KiB,
 	// in three frames)
 	HugeHeaders bool `json:"hugeHeaders,omitempty"`
+	// Query: the query component of :path ("" = none); may contain a literal "?" of its own (RFC 3986 allows it)
+	Query string `json:"query,omitempty"`
 	Padded         bool    `json:"padded"`         // DATA frames carry padding
 	Order          []bool  `json:"order"`          // interleaving of request-body frames (true) and response frames (false)
 	Fault          string  `json:"fault"`          // "", rst-client, rst-server, refused, open (left open until the conn closes)
@@ -694,7 +696,7 @@ func vfBuildFrames(ex vfExchange) ([]vfWireFrame, map[int]uint32) {
 		case "headers":
 			var fields [][2]string
 			if f.dir == 0 {
-				fields = [][2]string{{":method", "POST"}, {":scheme", "http"}, {":path", fmt.Sprintf("/connectrpc.conformance.v1.ConformanceService/M%d", f.stream)},
+				fields = [][2]string{{":method", "POST"}, {":scheme", "http"}, {":path", fmt.Sprintf("/connectrpc.conformance.v1.ConformanceService/M%d", f.stream) + map[bool]string{true: "?" + s.Query, false: ""}[s.Query != ""]},
 					{":authority", "verif.test"}, {"content-type", s.ReqCT}, {"x-attempt", fmt.Sprint(s.Attempt)}, {"x-stream-index", fmt.Sprint(f.stream)},
 					{"x-multi", fmt.Sprintf("a%d", f.stream)}, {"x-multi", "b"}} // (a field name may repeat within one header block)
 				if s.Named {
@@ -1056,8 +1058,8 @@ func vfC15Check(ex vfExchange) error {
 				return verifkit.Violf("h2-wrong-stream", "trace for %s describes stream %s, want stream %d (attempt %d)", name, gotIdx, so.stream, s.Attempt)
 			}
 			if tr.Request.Method != "POST" || tr.Request.URL.Path != fmt.Sprintf("/connectrpc.conformance.v1.ConformanceService/M%d", so.stream) ||
-				tr.Request.Header.Get("Content-Type") != s.ReqCT || tr.Request.Header.Get("X-Attempt") != fmt.Sprint(s.Attempt) {
-				return verifkit.Violf("h2-request-line", "stream %d: request line/headers wrong: %s %s %v", so.stream, tr.Request.Method, tr.Request.URL.Path, tr.Request.Header)
+				tr.Request.URL.RawQuery != s.Query || tr.Request.Header.Get("Content-Type") != s.ReqCT || tr.Request.Header.Get("X-Attempt") != fmt.Sprint(s.Attempt) {
+				return verifkit.Violf("h2-request-line", "stream %d: request line/headers wrong: %s %s ?%s (query sent: %q) %v", so.stream, tr.Request.Method, tr.Request.URL.Path, tr.Request.URL.RawQuery, s.Query, tr.Request.Header)
 			}
 			if got := fmt.Sprint(tr.Request.Header.Values("X-Multi")); got != fmt.Sprintf("[a%d b]", so.stream) {
 				return verifkit.Violf("h2-request-line", "stream %d: the request header field x-multi was sent twice (a%d, b) but the trace has %s", so.stream, so.stream, got)
@@ -1264,6 +1266,7 @@ func vfGenExchange(t *rapid.T) vfExchange {
 		s.Trailers = rapid.Bool().Draw(t, "trailers")
 		s.BigHeaders = rapid.IntRange(0, 4).Draw(t, "bigHeaders") == 0
 		s.HugeHeaders = rapid.IntRange(0, 11).Draw(t, "hugeHeaders") == 0
+		s.Query = rapid.SampledFrom([]string{"", "", "", "connect=v1&encoding=json", "a=1", "message=%7B%22q%22%3A1%7D&x=1", "message={\"q\":\"who?what\"}&x=1", "?", "a=b?c=d?e"}).Draw(t, "query")
 		s.Padded = rapid.IntRange(0, 3).Draw(t, "padded") == 0
 		for j := 0; j < 6; j++ {
 			s.Order = append(s.Order, rapid.Bool().Draw(t, "order"))
